@@ -85,6 +85,47 @@ def make(net, names, order, ids):
     return ec.build_hypergraph(net, names=names, ids=ids, order=order)
 
 
+def own_view(net, names, order, ids, cname):
+    """The expected graph view, built from the network tuple (not via the library's exporters)."""
+    import networkx as nx
+
+    n = len(net)
+    rid = {}
+    cnt = 0
+    for k in order:
+        cnt += 1
+        rid[k] = ids[k] if ids else f"r_{cnt}"
+    G = nx.DiGraph()
+    used = sorted({names[i] for l, r in net for i in range(len(l)) if l[i] or r[i]})
+    for sp in used:
+        G.add_node(sp, kind="species")
+    if cname == "species":
+        for l, r in net:
+            for i, a in enumerate(l):
+                for j, b in enumerate(r):
+                    if a and b:
+                        G.add_edge(names[i], names[j])
+        return G
+    for k in range(n):
+        l, r = net[k]
+        G.add_node(rid[k], kind="reaction")
+        for i, a in enumerate(l):
+            if a:
+                G.add_edge(names[i], rid[k], role="reactant", **({"stoich": a} if cname == "bip" else {}))
+        for j, b in enumerate(r):
+            if b:
+                G.add_edge(rid[k], names[j], role="product", **({"stoich": b} if cname == "bip" else {}))
+    return G
+
+
+def same_view(G, W, ekeys):
+    if set(G.nodes) != set(W.nodes) or set(G.edges) != set(W.edges):
+        return False
+    if any(G.nodes[v].get("kind") != W.nodes[v].get("kind") for v in W.nodes):
+        return False
+    return all(tuple(G[u][v].get(k) for k in ekeys) == tuple(W[u][v].get(k) for k in ekeys) for u, v in W.edges)
+
+
 def check(case):
     from synkit.CRN.Topo.canon import CRNCanonicalizer
     from synkit.CRN.Topo.automorphism import CRNAutomorphism
@@ -93,28 +134,31 @@ def check(case):
     fails = []
     ncalls = 0
     nontriv = False
-    digs = {}
-    for cname, kw in CONFIGS:
-        first = None
-        for names, order, ids in presentations(net):
-            H = make(net, names, order, ids)
+    first = {}
+    dead = set()
+    for pi, (names, order, ids) in enumerate(presentations(net)):
+        H = make(net, names, order, ids)  # ONE object shared by all helpers and configurations of this presentation
+        cfgs = CONFIGS if pi % 2 == 0 else CONFIGS[::-1]
+        for cname, kw in cfgs:
+            if cname in dead:
+                continue
             can = CRNCanonicalizer(H, **kw)
             summ = can.summary(timeout_sec=None)
             ncalls += 1
             Gc = summ["canon_graph"]
             nk, ek = can.node_attr_keys, can.edge_attr_keys
             d = canon_digest(Gc, nk, ek)
-            if first is None:
-                first = d
-                digs[cname] = d
-                # isomorphic to the view (all attributes preserved under the relabelling)
-                view = can.G
-                neq = lambda a, b: a == b
+            view = can.G
+            if pi < 2:
+                W = own_view(net, names, order, ids, cname)
+                if not same_view(view, W, ek):
+                    fails.append(Fail("wrong_view", f"{cname}: arcs {sorted((str(u), str(v), tuple(view[u][v].get(k) for k in ek)) for u, v in view.edges)}", f"{sorted((str(u), str(v), tuple(W[u][v].get(k) for k in ek)) for u, v in W.edges)}", key_extra=cname))
+                    dead.add(cname)
+                    continue
+            if cname not in first:
+                first[cname] = d
                 if not rm.isomorphic(view, Gc, lambda a, b: _fr_d(a) == _fr_d(b), lambda a, b: _fr_d(a) == _fr_d(b)):
                     fails.append(Fail("canon_not_isomorphic_to_view", f"{cname}: nodes {sorted(map(str, Gc.nodes))}", "isomorphic", key_extra=cname))
-                # automorphism data of the canonicaliser: node + edge keys
-                nm = rm.attr_eq(nk)
-                em = rm.attr_eq(ek)
                 autos = rm.automorphisms(view, lambda a, b: _sel(a, nk) == _sel(b, nk), lambda a, b: _sel(a, ek) == _sel(b, ek))
                 orb = {frozenset(o) for o in rm.orbits(view, autos)}
                 if len(autos) > 1:
@@ -123,28 +167,58 @@ def check(case):
                     fails.append(Fail("canon_aut_count", f"{cname}: {summ['automorphism_count']}", str(len(autos)), key_extra=cname))
                 if {frozenset(o) for o in summ["orbits"]} != orb:
                     fails.append(Fail("canon_orbits", f"{cname}: {sorted(map(sorted, summ['orbits']))}", str(sorted(map(sorted, orb))), key_extra=cname))
-                # CRNAutomorphism: node keys only
                 akw = {k: v for k, v in kw.items() if k != "edge_attr_keys"}
                 au = CRNAutomorphism(H, **akw)
                 s2 = au.summary(max_count=10**6, timeout_sec=None)
                 ncalls += 1
+                if not same_view(au.G, own_view(net, names, order, ids, cname), ()):
+                    fails.append(Fail("wrong_view", f"{cname}: CRNAutomorphism view differs from the network's", "the view of this network", key_extra=cname + ",vf2"))
                 autos2 = rm.automorphisms(au.G, lambda a, b: _sel(a, au.node_attr_keys) == _sel(b, au.node_attr_keys), lambda a, b: True)
                 orb2 = {frozenset(o) for o in rm.orbits(au.G, autos2)}
                 if s2["automorphism_count"] != len(autos2) or s2["stopped_early"]:
                     fails.append(Fail("vf2_aut_count", f"{cname}: {s2['automorphism_count']} stopped={s2['stopped_early']}", str(len(autos2)), key_extra=cname))
                 if {frozenset(o) for o in s2["orbits"]} != orb2:
                     fails.append(Fail("vf2_orbits", f"{cname}: {sorted(map(sorted, s2['orbits']))}", str(sorted(map(sorted, orb2))), key_extra=cname))
-                # consistency: canonicaliser without edge keys agrees with VF2 counter
                 can0 = CRNCanonicalizer(H, **{**kw, "edge_attr_keys": ()})
                 s0 = can0.summary(timeout_sec=None)
                 if s0["automorphism_count"] != len(autos2):
                     fails.append(Fail("canon_vs_vf2", f"{cname}: {s0['automorphism_count']}", str(len(autos2)), key_extra=cname))
-            elif d != first:
+            elif d != first[cname]:
                 fails.append(Fail("presentation_dependent", f"{cname}: names={names[:3]} order={order} ids={ids}", "same canonical graph as the first presentation", key_extra=cname))
-                break
-    out = Outcome(nontrivial=nontriv, outcome="sym" if nontriv else "asym", fails=fails, transitions=ncalls)
-    out.extra = digs  # type: ignore[attr-defined]
-    return out
+                dead.add(cname)
+    return Outcome(nontrivial=nontriv, outcome="sym" if nontriv else "asym", fails=fails, transitions=ncalls)
+
+
+def check_edit(case):
+    """canonicalise, edit the same network object in place, canonicalise again with fresh helpers"""
+    from synkit.CRN.Topo.canon import CRNCanonicalizer
+    from synkit.CRN.Topo.automorphism import CRNAutomorphism
+    from mc import edit_layer as el
+
+    net = ec.parse_net(case["net"])
+    H = ec.build_hypergraph(net)
+    for cname, kw in CONFIGS:
+        CRNCanonicalizer(H, **kw).summary(timeout_sec=None)
+        CRNAutomorphism(H, **{k: v for k, v in kw.items() if k != "edge_attr_keys"}).summary(max_count=10**6, timeout_sec=None)
+    net2 = el.apply_edit(H, net, case["edit"])
+    if not net2:
+        return Outcome(skipped="network_became_empty")
+    fresh = ec.build_hypergraph(net2)
+    fails = []
+    for cname, kw in CONFIGS:
+        a = CRNCanonicalizer(H, **kw)
+        b = CRNCanonicalizer(fresh, **kw)
+        sa, sb = a.summary(timeout_sec=None), b.summary(timeout_sec=None)
+        da = canon_digest(sa["canon_graph"], a.node_attr_keys, a.edge_attr_keys)
+        db = canon_digest(sb["canon_graph"], b.node_attr_keys, b.edge_attr_keys)
+        if da != db or sa["automorphism_count"] != sb["automorphism_count"]:
+            fails.append(Fail("stale_after_edit", f"{cname}: canonical graph / automorphism count of the edited object differ from a freshly built equal network", "equal", key_extra=cname))
+        akw = {k: v for k, v in kw.items() if k != "edge_attr_keys"}
+        ca = CRNAutomorphism(H, **akw).summary(max_count=10**6, timeout_sec=None)["automorphism_count"]
+        cb = CRNAutomorphism(fresh, **akw).summary(max_count=10**6, timeout_sec=None)["automorphism_count"]
+        if ca != cb:
+            fails.append(Fail("stale_after_edit_vf2", f"{cname}: {ca} vs fresh {cb}", "equal", key_extra=cname))
+    return Outcome(nontrivial=True, outcome="edited", fails=fails, transitions=12)
 
 
 def _sel(d, keys):
@@ -285,6 +359,7 @@ def _setup_t():
 def subchecks(tier, seed):
     return [
         Sub("presentations", gen, check, key=lambda c: c["net"], rule=RULE[tier]),
+        Sub("edited", lambda t, s: __import__("mc.edit_layer", fromlist=["x"]).gen_edits(t), check_edit, key=lambda c: f"{c['net']} / {c['edit']}", rule="canonicalise, edit in place, canonicalise again; compared with a freshly built equal network"),
         Sub("id_seam", gen, e3_check, key=lambda c: c["net"], rule=RULE[tier], setup=_setup_q if tier == "quick" else _setup_t),
     ]
 
